@@ -467,7 +467,21 @@ fn select(cs: Charset, label: &str, form: CtForm, defaults: Defaults, k: u64) ->
         CtForm::WithBlank => (Some(format!("{t}; charset={label}").into_bytes()), cs, "header", session_default, request_default),
         CtForm::NoBlank => (Some(format!("{t};charset={label}").into_bytes()), cs, "header", session_default, request_default),
         CtForm::Absent => (None, fallback.0, fallback.1, session_default, request_default),
-        CtForm::UnknownLabel => (Some(format!("{t}; charset=x-no-such-charset-{}", k % 7).into_bytes()), fallback.0, fallback.1, session_default, request_default),
+        // (unknown labels include look-alikes that equal a known label only under UNICODE case
+        //  mapping or trimming: Kelvin sign for k, dotless / dotted capital i, NBSP / ideographic blank)
+        CtForm::UnknownLabel => (
+            Some(match k % 11 {
+                7 => format!("{t}; charset=\u{212a}oi8-r").into_bytes(),
+                8 => format!("{t}; charset=euc-\u{212a}r").into_bytes(),
+                9 => format!("{t}; charset=utf-8\u{a0}").into_bytes(),
+                10 => format!("{t}; charset=w\u{130}ndows-1251").into_bytes(),
+                j => format!("{t}; charset=x-no-such-charset-{j}").into_bytes(),
+            }),
+            fallback.0,
+            fallback.1,
+            session_default,
+            request_default,
+        ),
         CtForm::NoParameter => (Some(t.as_bytes().to_vec()), fallback.0, fallback.1, session_default, request_default),
         CtForm::ShortParameter => (Some(format!("{t}{}", [";", "; ", "; q=1", ";a=b", "; chars"][(k % 5) as usize]).into_bytes()), fallback.0, fallback.1, session_default, request_default),
     }
